@@ -86,7 +86,7 @@ theorem addDp_full {dt : Data} {s s' : Store} {dp : Nat} {node : Int}
   · exact Or.inr (hmn ▸ hf m hm (hmn ▸ hc))
 
 theorem addDp_inv {dt : Data} {s s' : Store} {dp : Nat} {node : Int}
-    (h : s.addDataPointToNode dt dp node = some s') (hs : Inv s) : Inv s' :=
+    (h : s.addDataPointToNode dt dp node = some s') (hs : Inv0 s) : Inv0 s' :=
   ⟨addDp_wf h hs.1, addDp_full h hs.1 fun n hn _ => hs.2 n hn⟩
 
 theorem addDp_dense {dt : Data} {s s' : Store} {dp : Nat} {node : Int}
